@@ -591,3 +591,6 @@ def replay(doc):
     if bad:
         return True, f"reproduced: {bad[0]}: {bad[1]}"
     return False, "trace accepted by the checker"
+
+
+RULE += ' Also (wave 9): an output object that is falsy while empty.'
